@@ -1,7 +1,7 @@
-(* Proofs/BetweenPaths.v — path-counting phase of the weighted routines, PARTIAL correctness:
+(* Proofs/BetweenPaths.v — path-counting phase of the weighted routines, the DISTANCES:
    every finite D[x] is the length of an actual walk u -> x (soundness of D), a node is reached iff it is
-   reachable (the reached set is closed under connections), and reachable nodes have NP >= 1.
-   NOT proved: minimality of D, NP = sigma, P = the tight connections. *)
+   reachable (the reached set is closed under connections), D[x] is the minimum walk length = dist_spec, and
+   reachable nodes have NP >= 1.  (NP = sigma and P = the tight connections: Proofs/BetweenCount.v, BetweenFull.v.) *)
 From Coq Require Import QArith Lia List Arith Bool ZArith Permutation Sorted.
 From BCT Require Import Base.Mat Base.SumQ Base.ListX Model.Between
   Proofs.BetweenAccum Proofs.BetweenReady Proofs.BetweenQueue Proofs.BetweenSpec.
@@ -130,9 +130,8 @@ Proof.
 Qed.
 
 (* path-counting phase of betweenness_wei / edge_betweenness_wei: the DISTANCES are correct (and the reached set,
-   and NP >= 1 on it).  PARTIAL with respect to the full statement search_correct_wei (Properties/C08.v):
-   NP = sigma and "P = the tight connections" are not proved. *)
-Theorem search_w_dist_partial n G u : (u < n)%nat -> nonneg_len n G ->
+   and NP >= 1 on it).  The rest of search_correct_wei (Properties/C08.v) is BetweenFull.search_w_correct. *)
+Theorem search_w_dist n G u : (u < n)%nat -> nonneg_len n G ->
   exists st, source_w n G u = Some st /\
     (forall x, (x < n)%nat -> match sD st x with Some d => is_dist n G u x d | None => ~ reachable n G u x end) /\
     (forall x, (x < n)%nat -> sD st x = dist_spec n G u x) /\
